@@ -29,6 +29,8 @@ pub enum Step {
     /// the application task / thread that holds a delivered request fails: the request object is
     /// dropped by the unwinding
     DropByPanic { sel: u16 },
+    /// the application asks for the event stream once more and keeps reading the one(s) it had
+    Resubscribe,
 }
 
 #[derive(Clone, Debug, PartialEq, Eq, Hash, Serialize, Deserialize)]
@@ -283,6 +285,8 @@ async fn run(case: &Case, rep: &mut CaseReport) -> Option<(String, String)> {
     };
 
     let mut pending_in_channel: usize = 0; // events sitting in the (undrained) event channel
+    let mut registered = case.register_events;
+    let mut resubscribed = 0;
     for step in &case.steps {
         match step {
             Step::SetDraining(b) => {
@@ -294,11 +298,21 @@ async fn run(case: &Case, rep: &mut CaseReport) -> Option<(String, String)> {
             Step::Talk { from, idlen, payload } => {
                 let k = inject(&mut s, *from, *idlen, payload.clone(), &mut counter);
                 s.settle().await;
-                let deliverable = case.register_events && (s.drain_events || pending_in_channel < 100);
-                if case.register_events && !s.drain_events {
+                let deliverable = registered && (s.drain_events || pending_in_channel < 100);
+                if registered && !s.drain_events {
                     pending_in_channel += 1;
                 }
                 fates.insert(k, if deliverable { Fate::Held } else { Fate::Undeliverable });
+            }
+            Step::Resubscribe => {
+                if resubscribed < 3 {
+                    resubscribed += 1;
+                    s.resubscribe().await;
+                    registered = true;
+                    // the new stream is empty; what sat in the old one is still read from there
+                    pending_in_channel = 0;
+                    rep.class("event-stream-requested-again");
+                }
             }
             Step::Wait { ms } => {
                 tokio::time::sleep(std::time::Duration::from_millis(*ms as u64)).await;
@@ -310,8 +324,8 @@ async fn run(case: &Case, rep: &mut CaseReport) -> Option<(String, String)> {
                 for _ in 0..*n {
                     let k = inject(&mut s, *from, 8, vec![1], &mut counter);
                     s.settle().await;
-                    let deliverable = case.register_events && (s.drain_events || pending_in_channel < 100);
-                    if case.register_events && !s.drain_events {
+                    let deliverable = registered && (s.drain_events || pending_in_channel < 100);
+                    if registered && !s.drain_events {
                         pending_in_channel += 1;
                     }
                     if !deliverable {
@@ -428,6 +442,7 @@ impl Property for C20 {
             1 => any::<u16>().prop_map(|sel| Step::DropOnOtherThread { sel }),
             1 => any::<u16>().prop_map(|sel| Step::DropByPanic { sel }),
             1 => any::<bool>().prop_map(Step::SetDraining),
+            1 => Just(Step::Resubscribe),
             1 => (0u8..4, prop_oneof![Just(5u8), Just(110u8)]).prop_map(|(from, n)| Step::Burst { from, n }),
             2 => prop_oneof![1u32..200, 200u32..3000, 3000u32..20000, Just(60_000u32)].prop_map(|ms| Step::Wait { ms }),
         ];
@@ -460,7 +475,7 @@ impl Property for C20 {
         rep
     }
     fn rule() -> String {
-        "a real Discv5 service with a scripted handler; scripts of 1..19 steps: TALKREQs (ids of 2..8 bytes, 4 source nodes) (each source node known to the service as a routing-table member or not; its requests coming from the socket its record advertises or from another one; IPv4 or dual-stack service with records advertising both families) injected while an event stream is registered / not registered / not being read so that it fills up (bursts of 110), the application responding to, dropping, dropping on another thread, dropping through the unwinding of a failing thread, or holding the delivered request objects in any order, also across 1 ms .. 60 s of (virtual) time; finally shutdown (service exit, handler end closed) followed by respond / drop of everything still held. After every step: a request that was responded to has exactly one TALKRESP with that payload to its source node address, a dropped or undeliverable one exactly one empty TALKRESP, a held one none, and no TALKRESP exists for anything else; after shutdown respond returns ChannelClosed and drop does not panic. Non-trivial = >=2 requests with different fates at the same time, or a release after shutdown.".into()
+        "a real Discv5 service with a scripted handler; scripts of 1..19 steps: TALKREQs (ids of 2..8 bytes, 4 source nodes) (each source node known to the service as a routing-table member or not; its requests coming from the socket its record advertises or from another one; IPv4 or dual-stack service with records advertising both families) injected while an event stream is registered / not registered / not being read so that it fills up (bursts of 110), the application responding to, dropping, dropping on another thread, dropping through the unwinding of a failing thread, asking for the event stream again (Discv5::event_stream called a second / third time while the earlier streams are still read), or holding the delivered request objects in any order, also across 1 ms .. 60 s of (virtual) time; finally shutdown (service exit, handler end closed) followed by respond / drop of everything still held. After every step: a request that was responded to has exactly one TALKRESP with that payload to its source node address, a dropped or undeliverable one exactly one empty TALKRESP, a held one none, and no TALKRESP exists for anything else; after shutdown respond returns ChannelClosed and drop does not panic. Non-trivial = >=2 requests with different fates at the same time, or a release after shutdown.".into()
     }
     fn assumptions() -> Vec<String> {
         vec!["request ids are unique per source within a script (the ledger is keyed by (node address, id))".into()]
